@@ -24,6 +24,7 @@ CONSTANTS
   Denied <- MCNoDenied
   Toks = {"none", "even", "bogus", "c1", "c2"}
   ResvTO = 30
+  QuotaDenied = {}
   MaxDepth = 5
 CONSTRAINT DepthBound
 ACTION_CONSTRAINT EmitEdge
